@@ -198,7 +198,14 @@ def oracle(case, rec):
         else:
             lb = np.full(len(ub), -np.inf)
     else:
-        xhat = call(key + "/fit", case, obj.fit, start.copy(), lb_arg, ub_arg)
+        try:
+            xhat = call(key + "/fit", case, obj.fit, start.copy(), lb_arg, ub_arg)
+        except PropertyViolation as v:
+            if case["mode"] == "zero-bound" and "IntegrationError" in v.key:
+                # the box of this mode reaches into negative rates, where a generated model may blow up within the horizon:
+                # outside the domain the models are benign on
+                raise Inconclusive("zero-bound box: the ODE is not integrable at negative rates")
+            raise
     xhat = np.asarray(xhat, float)
     if xhat.shape != start.shape:
         raise PropertyViolation(key + "/shape", "fit returned shape %s for %d free parameters" % (xhat.shape, len(start)), case)
